@@ -26,7 +26,7 @@ class Batching:
         log = m.log
         prev_cen = ctx.prev_census
         while self.n_recv < len(log.receives):
-            t, did, part, ct, ser, lvs = log.receives[self.n_recv]
+            t, did, part, ct, ser, lvs, val = log.receives[self.n_recv]
             self.n_recv += 1
             if did in self.batchers:
                 if prev_cen is not None:
